@@ -4,7 +4,7 @@ import os
 import numpy as np
 import segyio
 
-from .. import env, core, gen, conv, spec, mksegy, segycases, view, synth, symcodec
+from .. import derivedcorr, env, core, gen, conv, spec, mksegy, segycases, view, synth, symcodec
 from seismic_zfp.version import SeismicZfpVersion  # noqa: E402
 from seismic_zfp.read import SgzReader  # noqa: E402
 from seismic_zfp.cropping import SgzCropper  # noqa: E402
@@ -254,6 +254,10 @@ def writers_part(ctx, rng):
                     env.quiet(cr.write_cropped_file_by_indexes, c, box[0], box[1], box[2])
                 ctx.case((kind, n, bs, q, 'crop'))
                 ctx.stats['writer_crop'] += 1
+                if MODEL.get('m') is not None:
+                    # K: Model/Derived.cropHeader (closure theorem `cropped_file_conformant` is about this function)
+                    derivedcorr.check_crop(ctx, MODEL['m'], cur, c, (box[0][0], box[0][1], box[1][0], box[1][1], 0, n[2]),
+                                           True, (box[0][1] - box[0][0]) * (box[1][1] - box[1][0]), dict(desc, box=box))
                 if file_matches_reader(ctx, c, dict(desc, box=box), 'convert->crop output'):
                     cur = c
             except Exception as e:  # noqa
@@ -265,6 +269,8 @@ def writers_part(ctx, rng):
                     env.quiet(cv.convert_to_adv_sgz, a)
                 ctx.case((kind, n, bs, q, 'reblock'))
                 ctx.stats['writer_reblock'] += 1
+                if MODEL.get('m') is not None:
+                    derivedcorr.check_reblock(ctx, MODEL['m'], cur, a, desc)   # K: Model/Derived.reblockHeader
                 if file_matches_reader(ctx, a, desc, 'convert->(crop->)re-block output'):
                     cur = a
             except Exception as e:  # noqa
